@@ -454,7 +454,7 @@ fn slot_variants(kind: Kind, threads: u8, calls: u8) -> Vec<u8> {
     }
 }
 
-pub const RULE: &str = "schedules of the real code at the granularity of every atomic operation and lock acquisition the runtime performs (yield hook): T threads x K calls through clones on (a) one unordered pattern with a 3-segment response chain, (b) an ordered sequence whose slots accept every call (as many slots as calls, and one fewer), (c) both mixed, (d)/(e) single-use values, (f) an ordered sequence whose slots reject part of the calls (oracle there: no ordered position is handed out twice, and verification fails after a rejection), (g) one pattern with a single response and an exact count n_times(N) / n_times(N+1) for N calls (only the count can go wrong: verification after join must be silent / name exactly that pattern). exhaustive = depth-first enumeration of ALL schedules for (T,K) in {(2,1),(2,2),(3,1),(2,3)} (+ (3,2),(4,1) in the thorough tier); sampled = proptest-generated choice sequences for (3,2)..(4,3); stress = 16 unsynchronised real threads. lent-answers = T threads x K calls answered through make_ref on ONE shared &Unimock (value-chain cells and the delegator cell are yield points too), optionally the first call of each thread through a provided method (race for the delegation helper): all schedules of (2,1),(2,2) (+ (3,1),(2,3) thorough), sampled (3,2)..(4,3); oracle there: every call reads its own value at the call and at thread end, addresses pairwise distinct, silent teardown. Oracle: multiset of returned tags / panics per method equals that of positions 1..N of the sequential model, and the verification verdict after join equals the sequential verdict. Non-trivial = >= 2 context switches at yield points; distinct = distinct schedule";
+pub const RULE: &str = "schedules of the real code at the granularity of every atomic operation and lock acquisition the runtime performs (yield hook): T threads x K calls through clones on (a) one unordered pattern with a 3-segment response chain, (b) an ordered sequence whose slots accept every call (as many slots as calls, and one fewer), (c) both mixed, (d)/(e) single-use values, (f) an ordered sequence whose slots reject part of the calls (oracle there: no ordered position is handed out twice, and verification fails after a rejection), (h) calls that are all rejected (no pattern accepts / method unmentioned): every one of the N errors must be named by the verification after join, none lost, (g) one pattern with a single response and an exact count n_times(N) / n_times(N+1) for N calls (only the count can go wrong: verification after join must be silent / name exactly that pattern). exhaustive = depth-first enumeration of ALL schedules for (T,K) in {(2,1),(2,2),(3,1),(2,3)} (+ (3,2),(4,1) in the thorough tier); sampled = proptest-generated choice sequences for (3,2)..(4,3); stress = 16 unsynchronised real threads. lent-answers = T threads x K calls answered through make_ref on ONE shared &Unimock (value-chain cells and the delegator cell are yield points too), optionally the first call of each thread through a provided method (race for the delegation helper): all schedules of (2,1),(2,2) (+ (3,1),(2,3) thorough), sampled (3,2)..(4,3); oracle there: every call reads its own value at the call and at thread end, addresses pairwise distinct, silent teardown. Oracle: multiset of returned tags / panics per method equals that of positions 1..N of the sequential model, and the verification verdict after join equals the sequential verdict. Non-trivial = >= 2 context switches at yield points; distinct = distinct schedule";
 
 pub fn stress(ctx: &Ctx) -> SubReport {
     // real threads, hooks idle: 16 threads hammer an unordered chain and an ordered sequence
@@ -820,7 +820,7 @@ pub fn run(ctx: &Ctx) -> Verdict {
         "sequentially consistent interleavings only (no weak-memory effects)".into(),
     ];
     v.subs.push(super::replay_corpus(ctx));
-    v.subs.extend(run_kinds(ctx, &[(2, 1), (2, 2), (3, 1), (2, 3)], &[Kind::UnorderedChain, Kind::Ordered, Kind::Mixed, Kind::OrderedRejecting, Kind::ExactCount]));
+    v.subs.extend(run_kinds(ctx, &[(2, 1), (2, 2), (3, 1), (2, 3)], &[Kind::UnorderedChain, Kind::Ordered, Kind::Mixed, Kind::OrderedRejecting, Kind::ExactCount, Kind::AllErrors]));
     v.subs.push(stress(ctx));
     v.subs.push(lend_stress(ctx));
     v.subs.extend(lent_reports(ctx));
